@@ -119,6 +119,56 @@ def collect [CliNum ν] : List (Json ν) → Option (List (Json ν))
     | some h, some r => some (h ++ r)
     | _, _ => none
 
+/-! ## what the builders do with the list (`build_hmc`, `build_mcmc`, `build_advi`) -/
+
+inductive RemoveRule where
+  | never          -- `coalescent.theta` is never removed
+  | always         -- removed whenever the coalescent is piecewise (the code before F61)
+  | centeredOnly   -- removed for a piecewise coalescent unless `--coalescent_non_centered`
+  deriving DecidableEq, Repr
+
+/-- the post-processing of a builder, read from its source -/
+structure Post where
+  appendTree : Bool        -- `if arg.clock is not None and arg.heights == 'ratio': append("tree")`
+  remove : RemoveRule
+  deriving DecidableEq, Repr
+
+/-- the command-line switches the post-processing looks at -/
+structure Flags where
+  clock : Bool         -- `arg.clock is not None`
+  ratio : Bool         -- `arg.heights == 'ratio'`
+  piecewise : Bool     -- `arg.coalescent in COALESCENT_PIECEWISE`
+  nonCentered : Bool   -- `arg.coalescent_non_centered`
+  deriving DecidableEq, Repr
+
+def isStr (s : String) : Json ν → Bool
+  | str t => t == s
+  | _ => false
+
+/-- `l.remove(s)`: the first occurrence; `none` (ValueError) when absent -/
+def listRemove (s : String) : List (Json ν) → Option (List (Json ν))
+  | [] => none
+  | x :: xs => if isStr s x then some xs else (listRemove s xs).map (x :: ·)
+
+def Post.removes (p : Post) (f : Flags) : Bool :=
+  match p.remove with
+  | .never => false
+  | .always => f.piecewise
+  | .centeredOnly => f.piecewise && !f.nonCentered
+
+/-- the list finally handed to `joint.jacobian` (after `"joint"`) -/
+def finalJacobians [CliNum ν] (p : Post) (f : Flags) (j : Json ν) : Option (List (Json ν)) :=
+  match createJacobians j with
+  | none => none
+  | some l =>
+    let l1 := if p.appendTree && f.clock && f.ratio then l ++ [str "tree"] else l
+    if p.removes f then listRemove "coalescent.theta" l1 else some l1
+
+/-- the `joint.jacobian` object the builders append -/
+def jointJacobian (l : List (Json ν)) : Json ν :=
+  obj [("id", str "joint.jacobian"), ("type", str "JointDistributionModel"),
+       ("distributions", arr (str "joint" :: l))]
+
 /-! ## make_unconstrained -/
 
 /-- apply `f` to every number of a (possibly nested) list / scalar: `T.inv(torch.tensor(v)).tolist()` -/
@@ -148,6 +198,39 @@ def idPlus (kvs : List (String × Json ν)) (suffix : String) : Option (Json ν)
   match lookup "id" kvs with
   | some (str i) => some (str (i ++ suffix))
   | _ => none
+
+/-- one row of the constraint-dispatch table: the transform written into the JSON, the suffix of the
+child's id, and the torch class whose `.inv` computes the child's initial value -/
+structure Row where
+  transform : String
+  suffix : String
+  inverse : String
+  deriving DecidableEq, Repr
+
+/-- the constraint-dispatch table of `make_unconstrained` (and of `create_meanfield`'s `apply_*`
+helpers): which annotation becomes which transform.  `TTGen/C19_Dispatch.lean` regenerates it from
+the source on every run; `Dispatch.reference` is the table the code had when this was written. -/
+structure Dispatch where
+  unit : Row        -- `@lower == 0 and @upper == 1`
+  lower0 : Row      -- `@lower` present, not `> 0`
+  lowerPos : Row    -- `@lower > 0` (then the shifted parameter goes through the table again)
+  simplex : Row     -- `@simplex` truthy
+  deriving DecidableEq, Repr
+
+def sigmoidName := "torch.distributions.SigmoidTransform"
+def expName := "torch.distributions.ExpTransform"
+def affineName := "torch.distributions.AffineTransform"
+def stickName := "torch.distributions.StickBreakingTransform"
+
+def Dispatch.reference : Dispatch :=
+  ⟨⟨sigmoidName, ".unres", sigmoidName⟩, ⟨expName, ".unres", expName⟩,
+   ⟨affineName, ".unshifted", affineName⟩, ⟨stickName, ".unres", stickName⟩⟩
+
+/-- the element-wise inverse of the named torch transform (`none`: not an element-wise one the model knows) -/
+def elemInv [CliNum ν] (name : String) : Option (ν → ν) :=
+  if name = sigmoidName then some CliNum.logit
+  else if name = expName then some CliNum.log
+  else none
 
 /-- result of rewriting one value: the rewritten value, `parameters_unres`, `parameters` -/
 structure Unc (ν : Type) where
@@ -186,28 +269,30 @@ def rewrittenAs (kvs : List (String × Json ν)) (transform : String) (x : Json 
   delKey "tensor" (del.foldl (fun acc k => delKey k acc)
     (setKey "x" x (setKey "transform" (str transform) (setKey "type" (str "TransformedParameter") kvs))))
 
-/-- the `ExpTransform` branch (`@lower` present and not `> 0`) -/
-def expCase [CliNum ν] (kvs : List (String × Json ν)) : Option (Unc ν) := do
-  let xid ← idPlus kvs ".unres"
-  let (x, del) ← childOf CliNum.log kvs xid false
-  let i ← lookup "id" kvs
-  pure ⟨obj (rewrittenAs kvs "torch.distributions.ExpTransform" (obj x) del), [obj x], [i]⟩
+/-- the lower-bound-0 branch (`@lower` present and not `> 0`): ExpTransform in the source table -/
+def expCase [CliNum ν] (d : Dispatch) (kvs : List (String × Json ν)) : Option (Unc ν) :=
+  match idPlus kvs d.lower0.suffix, elemInv (ν := ν) d.lower0.inverse, lookup "id" kvs with
+  | some xid, some inv, some i =>
+    match childOf inv kvs xid false with
+    | some (x, del) => some ⟨obj (rewrittenAs kvs d.lower0.transform (obj x) del), [obj x], [i]⟩
+    | none => none
+  | _, _, _ => none
 
-/-- the `SigmoidTransform` branch (`@lower == 0 and @upper == 1`); `del json_object['tensor']`
-raises when there is no `tensor` -/
-def sigmoidCase [CliNum ν] (kvs : List (String × Json ν)) : Option (Unc ν) := do
-  let xid ← idPlus kvs ".unres"
-  let (x, del) ← childOf CliNum.logit kvs xid true
-  let _ ← lookup "tensor" kvs
-  let i ← lookup "id" kvs
-  pure ⟨obj (rewrittenAs kvs "torch.distributions.SigmoidTransform" (obj x) del), [obj x], [i]⟩
+/-- the unit-interval branch (`@lower == 0 and @upper == 1`): SigmoidTransform in the source table;
+`del json_object['tensor']` raises when there is no `tensor` -/
+def sigmoidCase [CliNum ν] (d : Dispatch) (kvs : List (String × Json ν)) : Option (Unc ν) :=
+  match idPlus kvs d.unit.suffix, elemInv (ν := ν) d.unit.inverse, lookup "id" kvs, lookup "tensor" kvs with
+  | some xid, some inv, some i, some _ =>
+    match childOf inv kvs xid true with
+    | some (x, del) => some ⟨obj (rewrittenAs kvs d.unit.transform (obj x) del), [obj x], [i]⟩
+    | none => none
+  | _, _, _, _ => none
 
-/-- the `StickBreakingTransform` branch (`@simplex` truthy) -/
-def simplexCase [CliNum ν] (kvs : List (String × Json ν)) : Option (Unc ν) := do
-  let xid ← idPlus kvs ".unres"
-  let j1 := setKey "transform" (str "torch.distributions.StickBreakingTransform") (setKey "type" (str "TransformedParameter") kvs)
-  let tensor ← lookup "tensor" kvs
-  let vec ←
+/-- `torch.full(json['full'], json['tensor'])` / `torch.tensor(json['tensor'])` as a vector -/
+def simplexVec [CliNum ν] (kvs : List (String × Json ν)) : Option (List ν) :=
+  match lookup "tensor" kvs with
+  | none => none
+  | some tensor =>
     if hasKey "full" kvs then
       match lookup "full" kvs, tensor with
       | some (arr [num n]), num v => (CliNum.toNat n).map fun k => List.replicate k v
@@ -215,70 +300,90 @@ def simplexCase [CliNum ν] (kvs : List (String × Json ν)) : Option (Unc ν) :
     else match tensor with
       | arr xs => numList xs
       | _ => none
-  let x1 : List (String × Json ν) :=
-    [("id", xid), ("type", str "Parameter"), ("tensor", arr ((CliNum.stickInv vec).map num))]
-  let j2 := delKey "tensor" (setKey "x" (obj x1) j1)
-  let j3 := if hasKey "full" kvs then delKey "full" j2 else j2
-  let i ← lookup "id" kvs
-  pure ⟨obj j3, [obj x1], [i]⟩
+
+/-- the `StickBreakingTransform` branch (`@simplex` truthy) -/
+def simplexCase [CliNum ν] (d : Dispatch) (kvs : List (String × Json ν)) : Option (Unc ν) :=
+  if d.simplex.inverse ≠ stickName then none else
+  match idPlus kvs d.simplex.suffix, simplexVec kvs, lookup "id" kvs with
+  | some xid, some vec, some i =>
+    let x1 : List (String × Json ν) :=
+      [("id", xid), ("type", str "Parameter"), ("tensor", arr ((CliNum.stickInv vec).map num))]
+    let j2 := delKey "tensor" (setKey "x" (obj x1)
+      (setKey "transform" (str d.simplex.transform) (setKey "type" (str "TransformedParameter") kvs)))
+    some ⟨obj (if hasKey "full" kvs then delKey "full" j2 else j2), [obj x1], [i]⟩
+  | _, _, _ => none
 
 /-- the `AffineTransform` branch (`@lower > 0`): shift, then the shifted parameter (lower bound
-`0.0`) goes through `make_unconstrained` again, i.e. through the Exp branch -/
-def affineCase [CliNum ν] (kvs : List (String × Json ν)) (lower : ν) : Option (Unc ν) := do
-  let xid ← idPlus kvs ".unshifted"
-  let j1 := setKey "parameters" (obj [("loc", num lower), ("scale", num CliNum.oneF)])
-    (setKey "transform" (str "torch.distributions.AffineTransform") (setKey "type" (str "TransformedParameter") kvs))
-  let tensor ← lookup "tensor" kvs
-  let t ← mapNum (fun y => CliNum.sub y lower) tensor
-  let x : List (String × Json ν) :=
-    [("id", xid), ("type", str "Parameter"), ("tensor", t), ("@lower", num CliNum.zeroF)]
-  let inner ← expCase x
-  let j2 := delKey "tensor" (setKey "x" inner.json j1)
-  pure ⟨obj j2, inner.unres, inner.params⟩
+`0.0`) goes through `make_unconstrained` again, i.e. through the lower-bound-0 row -/
+def affineCase [CliNum ν] (d : Dispatch) (kvs : List (String × Json ν)) (lower : ν) : Option (Unc ν) :=
+  if d.lowerPos.inverse ≠ affineName then none else
+  match idPlus kvs d.lowerPos.suffix, (lookup "tensor" kvs).bind (mapNum (fun y => CliNum.sub y lower)) with
+  | some xid, some t =>
+    let x : List (String × Json ν) :=
+      [("id", xid), ("type", str "Parameter"), ("tensor", t), ("@lower", num CliNum.zeroF)]
+    match expCase d x with
+    | some inner =>
+      some ⟨obj (delKey "tensor" (setKey "x" inner.json
+          (setKey "parameters" (obj [("loc", num lower), ("scale", num CliNum.oneF)])
+            (setKey "transform" (str d.lowerPos.transform) (setKey "type" (str "TransformedParameter") kvs))))),
+        inner.unres, inner.params⟩
+    | none => none
+  | _, _ => none
+
+/-- `json_object['@lower'] == 0` -/
+def isLo0 [CliNum ν] : Json ν → Bool
+  | num x => CliNum.isZero x
+  | Json.bool b => !b
+  | _ => false
+/-- `json_object['@upper'] == 1` -/
+def isUp1 [CliNum ν] : Json ν → Bool
+  | num x => CliNum.isOne x
+  | Json.bool b => b
+  | _ => false
+/-- `json_object['@lower'] == json_object['@upper']` (numbers) -/
+def sameBound [CliNum ν] : Json ν → Json ν → Bool
+  | num a, num b => CliNum.eq a b
+  | _, _ => false
+/-- `json_object.get('@simplex', False)` as a truth value -/
+def simplexFlag [CliNum ν] (kvs : List (String × Json ν)) : Bool :=
+  match lookup "@simplex" kvs with
+  | some v => truthy v
+  | none => false
 
 /-- one dict with `type == 'Parameter'` -/
-def paramCase [CliNum ν] (kvs : List (String × Json ν)) : Option (Unc ν) :=
+def paramCase [CliNum ν] (d : Dispatch) (kvs : List (String × Json ν)) : Option (Unc ν) :=
   match lookup "@lower" kvs, lookup "@upper" kvs with
   | some lo, some up =>
-    let lo0 := match lo with | num x => CliNum.isZero x | Json.bool b => !b | _ => false
-    let up1 := match up with | num x => CliNum.isOne x | Json.bool b => b | _ => false
-    if lo0 && up1 then sigmoidCase kvs
-    else
-      let same := match lo, up with
-        | num a, num b => CliNum.eq a b
-        | _, _ => false
-      if same then some ⟨obj kvs, [], []⟩     -- fixed: left alone and not listed
-      else none                                -- NotImplementedError
+    if isLo0 lo && isUp1 up then sigmoidCase d kvs
+    else if sameBound lo up then some ⟨obj kvs, [], []⟩     -- fixed: left alone and not listed
+    else none                                                -- NotImplementedError
   | some lo, none =>
     match lo with
-    | num x => if CliNum.pos x then affineCase kvs x else expCase kvs
+    | num x => if CliNum.pos x then affineCase d kvs x else expCase d kvs
     | _ => none
   | none, _ =>
-    let simplex := match lookup "@simplex" kvs with
-      | some v => truthy v
-      | none => false
-    if simplex then simplexCase kvs
+    if simplexFlag kvs then simplexCase d kvs
     else match lookup "id" kvs with
       | some i => some ⟨obj kvs, [obj kvs], [i]⟩
       | none => none
 
 mutual
 /-- `make_unconstrained(json_object)`: the value left in place, `parameters_unres`, `parameters` -/
-def makeUnconstrained [CliNum ν] : Json ν → Option (Unc ν)
-  | arr xs => (muList xs).map fun (ys, u, p) => ⟨arr ys, u, p⟩
+def makeUnconstrained [CliNum ν] (d : Dispatch) : Json ν → Option (Unc ν)
+  | arr xs => (muList d xs).map fun (ys, u, p) => ⟨arr ys, u, p⟩
   | obj kvs =>
-    if strIs "Parameter" (lookup "type" kvs) then paramCase kvs
-    else (muFields kvs).map fun (ys, u, p) => ⟨obj ys, u, p⟩
+    if strIs "Parameter" (lookup "type" kvs) then paramCase d kvs
+    else (muFields d kvs).map fun (ys, u, p) => ⟨obj ys, u, p⟩
   | j => some ⟨j, [], []⟩
-def muList [CliNum ν] : List (Json ν) → Option (List (Json ν) × List (Json ν) × List (Json ν))
+def muList [CliNum ν] (d : Dispatch) : List (Json ν) → Option (List (Json ν) × List (Json ν) × List (Json ν))
   | [] => some ([], [], [])
-  | x :: xs => match makeUnconstrained x, muList xs with
+  | x :: xs => match makeUnconstrained d x, muList d xs with
     | some r, some (ys, u, p) => some (r.json :: ys, r.unres ++ u, r.params ++ p)
     | _, _ => none
-def muFields [CliNum ν] :
+def muFields [CliNum ν] (d : Dispatch) :
     List (String × Json ν) → Option (List (String × Json ν) × List (Json ν) × List (Json ν))
   | [] => some ([], [], [])
-  | (k, v) :: rest => match makeUnconstrained v, muFields rest with
+  | (k, v) :: rest => match makeUnconstrained d v, muFields d rest with
     | some r, some (ys, u, p) => some ((k, r.json) :: ys, r.unres ++ u, r.params ++ p)
     | _, _ => none
 end
@@ -286,11 +391,12 @@ end
 /-! ## create_meanfield (default distribution): what it does to the joint -/
 
 /-- `apply_exp_transform` -/
-def mfExp [CliNum ν] (kvs : List (String × Json ν)) : Option (List (String × Json ν)) := do
-  let xid ← idPlus kvs ".unres"
-  let j1 := setKey "transform" (str "torch.distributions.ExpTransform") (setKey "type" (str "TransformedParameter") kvs)
+def mfExp [CliNum ν] (m : Dispatch) (kvs : List (String × Json ν)) : Option (List (String × Json ν)) := do
+  let xid ← idPlus kvs m.lower0.suffix
+  let j1 := setKey "transform" (str m.lower0.transform) (setKey "type" (str "TransformedParameter") kvs)
   let tensor ← lookup "tensor" kvs
-  let t ← mapNum CliNum.log tensor
+  let inv ← elemInv m.lower0.inverse
+  let t ← mapNum inv tensor
   let x0 : List (String × Json ν) := [("id", xid), ("type", str "Parameter"), ("tensor", t)]
   if hasKey "full" kvs then do
     let full ← lookup "full" kvs
@@ -301,26 +407,28 @@ def mfExp [CliNum ν] (kvs : List (String × Json ν)) : Option (List (String ×
   else pure (delKey "tensor" (setKey "x" (obj x0) j1))
 
 /-- `apply_sigmoid_transformed(json_object)` (value = None) -/
-def mfSigmoid [CliNum ν] (kvs : List (String × Json ν)) : Option (List (String × Json ν)) := do
-  let xid ← idPlus kvs ".unres"
-  let j1 := setKey "transform" (str "torch.distributions.SigmoidTransform") (setKey "type" (str "TransformedParameter") kvs)
+def mfSigmoid [CliNum ν] (m : Dispatch) (kvs : List (String × Json ν)) : Option (List (String × Json ν)) := do
+  let xid ← idPlus kvs m.unit.suffix
+  let inv ← elemInv (ν := ν) m.unit.inverse
+  let j1 := setKey "transform" (str m.unit.transform) (setKey "type" (str "TransformedParameter") kvs)
   let x0 : List (String × Json ν) := [("id", xid), ("type", str "Parameter")]
   match lookup "tensor" kvs with
   | some (arr xs) =>
-    let t ← mapNum CliNum.logit (arr xs)
+    let t ← mapNum inv (arr xs)
     pure (delKey "tensor" (setKey "x" (obj (x0 ++ [("tensor", t)])) j1))
   | other =>
     if hasKey "full" kvs then do
       let tensor ← other
-      let t ← mapNum CliNum.logit tensor
+      let t ← mapNum inv tensor
       let full ← lookup "full" kvs
       pure (delKey "full" (delKey "tensor" (setKey "x" (obj (x0 ++ [("tensor", t), ("full", full)])) j1)))
     else none    -- sys.exit(1)
 
 /-- `apply_simplex_transform` -/
-def mfSimplex [CliNum ν] (kvs : List (String × Json ν)) : Option (List (String × Json ν)) := do
-  let xid ← idPlus kvs ".unres"
-  let j1 := setKey "transform" (str "torch.distributions.StickBreakingTransform") (setKey "type" (str "TransformedParameter") kvs)
+def mfSimplex [CliNum ν] (m : Dispatch) (kvs : List (String × Json ν)) : Option (List (String × Json ν)) := do
+  let xid ← idPlus kvs m.simplex.suffix
+  let j1 := setKey "transform" (str m.simplex.transform) (setKey "type" (str "TransformedParameter") kvs)
+  if m.simplex.inverse ≠ stickName then none
   if hasKey "full" kvs then
     match lookup "full" kvs with
     | some (arr (num n :: _)) =>
@@ -340,51 +448,46 @@ def mfSimplex [CliNum ν] (kvs : List (String × Json ν)) : Option (List (Strin
 
 /-- `apply_affine_transform(json_object, lower, 1.0)` followed by `create_meanfield` on the shifted
 parameter (which carries `@lower: 0`, hence `apply_exp_transform`) -/
-def mfAffine [CliNum ν] (kvs : List (String × Json ν)) (lower : ν) : Option (List (String × Json ν)) := do
-  let xid ← idPlus kvs ".unshifted"
+def mfAffine [CliNum ν] (m : Dispatch) (kvs : List (String × Json ν)) (lower : ν) : Option (List (String × Json ν)) := do
+  let xid ← idPlus kvs m.lowerPos.suffix
   let j1 := setKey "parameters" (obj [("loc", num lower), ("scale", num CliNum.oneF)])
-    (setKey "transform" (str "torch.distributions.AffineTransform") (setKey "type" (str "TransformedParameter") kvs))
+    (setKey "transform" (str m.lowerPos.transform) (setKey "type" (str "TransformedParameter") kvs))
+  if m.lowerPos.inverse ≠ affineName then none
   let tensor ← lookup "tensor" kvs
   let t ← mapNum (fun y => CliNum.sub y lower) tensor
   let x : List (String × Json ν) :=
     [("id", xid), ("type", str "Parameter"), ("tensor", t), ("@lower", num CliNum.zeroI)]
-  let x' ← mfExp x
+  let x' ← mfExp m x
   pure (delKey "tensor" (setKey "x" (obj x') j1))
 
-def mfParam [CliNum ν] (kvs : List (String × Json ν)) : Option (Json ν) :=
+def mfParam [CliNum ν] (m : Dispatch) (kvs : List (String × Json ν)) : Option (Json ν) :=
   match lookup "@lower" kvs, lookup "@upper" kvs with
   | some lo, some up =>
-    let same := match lo, up with
-      | num a, num b => CliNum.eq a b
-      | _, _ => false
-    if same then some (obj kvs) else (mfSigmoid kvs).map obj
+    if sameBound lo up then some (obj kvs) else (mfSigmoid m kvs).map obj
   | some lo, none =>
     match lo with
-    | num x => if CliNum.pos x then (mfAffine kvs x).map obj else (mfExp kvs).map obj
+    | num x => if CliNum.pos x then (mfAffine m kvs x).map obj else (mfExp m kvs).map obj
     | _ => none
   | none, _ =>
-    let simplex := match lookup "@simplex" kvs with
-      | some v => truthy v
-      | none => false
-    if simplex then (mfSimplex kvs).map obj
+    if simplexFlag kvs then (mfSimplex m kvs).map obj
     else (lookup "tensor" kvs).map fun _ => obj kvs     -- `torch.tensor(json_object['tensor'])`
 
 mutual
 /-- the joint after `create_meanfield(var_id, joint, 'Normal')` -/
-def meanfieldRewrite [CliNum ν] : Json ν → Option (Json ν)
-  | arr xs => (mfList xs).map arr
+def meanfieldRewrite [CliNum ν] (m : Dispatch) : Json ν → Option (Json ν)
+  | arr xs => (mfList m xs).map arr
   | obj kvs =>
-    if strIs "Parameter" (lookup "type" kvs) then mfParam kvs
-    else (mfFields kvs).map obj
+    if strIs "Parameter" (lookup "type" kvs) then mfParam m kvs
+    else (mfFields m kvs).map obj
   | j => some j
-def mfList [CliNum ν] : List (Json ν) → Option (List (Json ν))
+def mfList [CliNum ν] (m : Dispatch) : List (Json ν) → Option (List (Json ν))
   | [] => some []
-  | x :: xs => match meanfieldRewrite x, mfList xs with
+  | x :: xs => match meanfieldRewrite m x, mfList m xs with
     | some y, some ys => some (y :: ys)
     | _, _ => none
-def mfFields [CliNum ν] : List (String × Json ν) → Option (List (String × Json ν))
+def mfFields [CliNum ν] (m : Dispatch) : List (String × Json ν) → Option (List (String × Json ν))
   | [] => some []
-  | (k, v) :: rest => match meanfieldRewrite v, mfFields rest with
+  | (k, v) :: rest => match meanfieldRewrite m v, mfFields m rest with
     | some y, some ys => some ((k, y) :: ys)
     | _, _ => none
 end
